@@ -351,4 +351,31 @@ def Timed.window (k : Checker) (gs gh : Int) (t : Timed) (ci a b : Int) (alloc a
   { t := { t with sys := sys' }, checks := sys'.checks - t.sys.checks,
     gcs := if t.sys.rc.checking then ((runChecks k gs gh t.sys.st rs).filter (·.gcRan)).length else 0 }
 
+
+/-! ## the context handed to `Start` / `Shutdown` -/
+
+/-- the `context.Context` a caller passes: live, already cancelled, or with a deadline that has already expired
+(a service shutting down with a timed-out context is realistic) -/
+inductive Ctx | live | cancelled | expired
+deriving Repr, DecidableEq
+
+/-- labels with the context as a parameter -/
+inductive LblC
+  | start (c : Ctx)
+  | shutdown (c : Ctx)
+  | tick (r : Reading)
+deriving Repr, DecidableEq
+
+/-- `Start(_ context.Context, _)` and `Shutdown(context.Context)` ignore their context: a user that leaves with a dead
+context has left — it is not "still counted" -/
+def LblC.erase : LblC → Lbl
+  | .start _ => .start
+  | .shutdown _ => .shutdown
+  | .tick r => .tick r
+
+def Sys.stepC (k : Checker) (gcSoft gcHard : Int) (s : Sys) (l : LblC) : Sys := s.step k gcSoft gcHard l.erase
+
+def Ctx.ofKind : Nat → Option Ctx
+  | 0 => some .live | 1 => some .cancelled | 2 => some .expired | _ => none
+
 end OtelVerif.C18
